@@ -65,13 +65,43 @@ func sameFloat(a float64, b float64) bool { return a == b || (a != a && b != b) 
 // template: maypanic.)
 
 /*@ template for (self *Interpreter) *
-    except expression, infixHelper
-    serves C09, C04
+    except infixHelper
+    serves C09, C04, C10
     assume-safety
     assumepre expression, infixHelper, IndexValue, IsEqual
     dyncall-preserves self.callStackSize, self.callStackLimitSize
     ensures @depth-balanced self.callStackSize == old(self.callStackSize) && self.callStackLimitSize == old(self.callStackLimitSize)
-    loopinvariant self.callStackSize == entry(self.callStackSize) && self.callStackLimitSize == entry(self.callStackLimitSize)
+    ensures @polls-never-lost ghost(polls) >= old(ghost(polls))
+    loopinvariant self.callStackSize == entry(self.callStackSize) && self.callStackLimitSize == entry(self.callStackLimitSize) && ghost(polls) >= entry(ghost(polls))
+@*/
+
+// Cancellation (C10, sequential part): the context is polled by every
+// statement and expression evaluation and at least once per iteration of
+// every loop, so a cancelled context is seen after a bounded amount of work.
+
+/*@ func (self *Interpreter) checkCancelation
+    serves C10
+    ghostset polls = ghost(polls) + 1
+@*/
+
+/*@ func (self *Interpreter) statement
+    serves C10
+    ensures @polls-the-context ghost(polls) >= old(ghost(polls))+1
+@*/
+
+/*@ func (self *Interpreter) loopStatement
+    serves C10
+    loop 1 progress @iteration-polls ghost(polls) >= iterstart(ghost(polls))+1
+@*/
+
+/*@ func (self *Interpreter) whileStatement
+    serves C10
+    loop 1 progress @iteration-polls ghost(polls) >= iterstart(ghost(polls))+1
+@*/
+
+/*@ func (self *Interpreter) forStatement
+    serves C10
+    loop 1 progress @iteration-polls ghost(polls) >= iterstart(ghost(polls))+1
 @*/
 
 /*@ func (self *Interpreter) callFunc
@@ -85,13 +115,16 @@ func sameFloat(a float64, b float64) bool { return a == b || (a != a && b != b) 
 // + evaluator): assumed here, not proved.
 
 /*@ func (self *Interpreter) expression
-    serves C02, C04
-    trusted
+    serves C02, C04, C09, C10
+    assume-safety
+    assumepre expression, infixHelper, IndexValue, IsEqual
+    dyncall-preserves self.callStackSize, self.callStackLimitSize
     requires node != nil
-    ensures ret1 == nil ==> ret0 != nil && *ret0 != nil && valueOfType(*ret0, node.Type())
-    ensures ret1 != nil ==> *ret1 != nil
-    ensures @cells-keep-their-kind forall p *value.Value in allocated :: sameKind(*p, old(*p))
+    assumed-ensures ret1 == nil ==> ret0 != nil && *ret0 != nil && valueOfType(*ret0, node.Type())
+    assumed-ensures ret1 != nil ==> *ret1 != nil
+    assumed-ensures @cells-keep-their-kind forall p *value.Value in allocated :: sameKind(*p, old(*p))
     ensures @depth-balanced self.callStackSize == old(self.callStackSize) && self.callStackLimitSize == old(self.callStackLimitSize)
+    ensures @polls-the-context ghost(polls) >= old(ghost(polls))+1
 @*/
 
 /*@ func (self *Interpreter) infixHelper
@@ -101,6 +134,7 @@ func sameFloat(a float64, b float64) bool { return a == b || (a != a && b != b) 
     requires lhs != nil && rhs != nil && infixAdmissible(operator, lhs.Type(), rhs.Type())
     ensures @result i == nil ==> res != nil && *res != nil
     ensures @depth-balanced self.callStackSize == old(self.callStackSize) && self.callStackLimitSize == old(self.callStackLimitSize)
+    ensures @polls-never-lost ghost(polls) >= old(ghost(polls))
     assert @int-semantics before return value.NewValueInt(intRes), lhsVal, nil :: !pAst.VIntOpRaises(operator, rhsInt.Inner) && intRes == pAst.VIntOp(operator, lhsInt.Inner, rhsInt.Inner)
     assert @float-semantics before return value.NewValueFloat(floatRes), lhsVal, nil :: !pAst.VFloatOpRaises(operator, rhsFloat.Inner) && sameFloat(floatRes, pAst.VFloatOp(operator, lhsFloat.Inner, rhsFloat.Inner))
     assert @bool-semantics before return value.NewValueBool(boolRes), lhsVal, nil :: boolRes == pAst.VBoolOp(operator, lhsBool, rhsBool)
